@@ -18,7 +18,7 @@ ASSUMPTIONS = ['precedence-equivalence and the SGR group model (DESIGN 2.1/2.2)'
                'the given settings are read as the texts AnsiString(\'x\').apply_formatting(settings) reports (C14 owns spellings)',
                'display clauses are skipped (counted grey) when an ill-formed setting text is involved']
 MIN_EVAL = 400
-CASES = {'quick': 70, 'thorough': 1600}
+CASES = {'quick': 700, 'thorough': 9600}
 WEIGHTS = {'apply': 16, 'remove': 4, 'getitem': 3, 'add': 3, 'pad': 2, 'query': 0.1, 'find_settings': 0.1,
            'settings_at': 0.1, 'format_matching': 2}
 
